@@ -162,7 +162,7 @@ func c20Arg(t reflect.Type, rng *rand.Rand, n int, k int) (reflect.Value, bool) 
 		}
 		return reflect.ValueOf(houseI(rng, xs)), true
 	case t == tSample:
-		return reflect.ValueOf(stats.Sample{Xs: c20Data(rng, n)}), true
+		return reflect.ValueOf(c20Sample(rng, n, false)), true
 	case t == tRandPtr:
 		return reflect.ValueOf(rand.New(rand.NewSource(11))), true
 	case t.Kind() == reflect.Interface && t.NumMethod() > 0 && reflect.TypeOf(graph.IntGraph{}).Implements(t):
@@ -209,7 +209,8 @@ type c20Recv struct {
 
 var c20Receivers = []c20Recv{
 	{"stats.Sample", reflect.TypeOf((*stats.Sample)(nil)), func(rng *rand.Rand, n int) interface{} {
-		return &stats.Sample{Xs: c20Data(rng, n), Weights: c20Weights(rng, n)}
+		s := c20Sample(rng, n, rng.Intn(3) > 0)
+		return &s
 	}},
 	{"stats.NormalDist", reflect.TypeOf((*stats.NormalDist)(nil)), func(rng *rand.Rand, n int) interface{} { return &stats.NormalDist{Mu: 1, Sigma: 2} }},
 	{"stats.TDist", reflect.TypeOf((*stats.TDist)(nil)), func(rng *rand.Rand, n int) interface{} { return &stats.TDist{V: 4.5} }},
@@ -222,7 +223,7 @@ var c20Receivers = []c20Recv{
 		return &stats.UDist{N1: 4, N2: 5, T: houseI(rng, []int{2, 1, 3, 1, 2})}
 	}},
 	{"stats.KDE", reflect.TypeOf((*stats.KDE)(nil)), func(rng *rand.Rand, n int) interface{} {
-		return &stats.KDE{Sample: stats.Sample{Xs: c20Data(rng, n+2)}, Bandwidth: 0.75}
+		return &stats.KDE{Sample: c20Sample(rng, n+2, rng.Intn(2) == 0), Bandwidth: 0.75}
 	}},
 	{"stats.LinearHist", reflect.TypeOf((*stats.LinearHist)(nil)), func(rng *rand.Rand, n int) interface{} {
 		h := stats.NewLinearHist(0, float64(n)/2+1, 5)
